@@ -214,6 +214,16 @@ def _nice_model(eng, phi_neg, inputs):
     return None
 
 
+def _has_real_atoms(x):
+    if isinstance(x, symnp.ndarray):
+        return _has_real_atoms(x.tolist())
+    if isinstance(x, (list, tuple)):
+        return any(_has_real_atoms(y) for y in x)
+    if isinstance(x, dict):
+        return any(_has_real_atoms(y) for y in x.values())
+    return isinstance(x, SV) and not x.isint
+
+
 def _extra_model(eng, extra):
     s = eng.solver
     s.push()
@@ -299,6 +309,8 @@ def run_task(task):
                         model = _nice_model(eng, z3.BoolVal(True), res.inputs)
                     except Exception:
                         model = None
+                    if model is None and not _has_real_atoms(res.inputs):
+                        model = eng._ensure_model()
                     if model is None:
                         out['diff_skipped'] = out.get('diff_skipped', 0) + 1
                 else:
